@@ -456,6 +456,7 @@ def rename_rules(r, R):
             r.ob("R10.4.fields-independent-of-options", "%s: %s field %r" % (fn, what, fe.template), not bad,
                  "no test on an option value controls this field emission" if not bad else "controlled by option-dependent tests at %s" % bad,
                  site=fe.site, key="R10.4|%s|field|%s" % (what, fe.template))
+    xmlns_predicate(r, R)
     # text group
     tx = R.text_switch
     region = R.region_of_edge(tx["switch_bb"], tx["present"])
@@ -464,6 +465,77 @@ def rename_rules(r, R):
     ok = kinds == ["field", "rename"]
     r.ob("R10.4.text-group", fn, ok, "when text is present: one rename (bound to options.text_identifier) and one field emission" if ok else
          "text group emits %s" % kinds, site=tx["site"], key="R10.4|text")
+
+
+def xmlns_predicate(r, R):
+    """R10.6: the attribute group keeps a name unshortened exactly for namespace declarations: the crate predicate
+    that selects between the real name and remove_namespace(real name) is `text starts with "xmlns:"`, in one of the
+    enumerated idioms (find(':') + slice compare, split_once(':') + prefix compare, starts_with, strip_prefix)"""
+    from .common import is_conjunction_of, normal_form
+    b, lib = R.body, R.lib
+    preds = []
+    for cs in b.calls():
+        if cs.bb not in R.attr_loop["blocks"]:
+            continue
+        cb = lib.bodies.get(cs.node["callee"].get("path"))
+        f = lib.fns.get(cb.name, {}) if cb is not None else {}
+        if cb is not None and f.get("output", {}).get("prim") == "bool" and len(f.get("inputs", [])) == 1 and f["inputs"][0].get("s") == "&str":
+            preds.append((cs, cb))
+    V = mir.VALUE_PRESERVING
+
+    def colon_split(t):
+        """'find' / 'split' if t is text.find(':') / text.split_once(':')"""
+        t = strip(t, V)
+        if t[0] == "call" and t[1] in ("core::str::find", "core::str::split_once") and len(t[2]) == 2 and strip(t[2][0], V) == ("arg", 1) and strip(t[2][1]) == ("const", ":"):
+            return "find" if t[1].endswith("find") else "split"
+        return None
+
+    def payload(t, which):
+        t = strip(t, V)
+        if t[0] == "proj" and colon_split(t[1]) == which:
+            path = [e[1] if e[0] == "dc" else (e[-1] if e[0] == "f" else e[1]) for e in t[2] if e != "*"]
+            return path
+        return None
+
+    def atom_of(t):
+        nm = t[1]
+        a = [strip(x, V) for x in t[2]]
+        if nm.endswith("Option::is_some") and len(a) == 1 and colon_split(a[0]):
+            return ("has-colon", True)
+        if nm.endswith("Option::is_none") and len(a) == 1 and colon_split(a[0]):
+            return ("has-colon", False)
+        if nm in ("core::str::starts_with",) and len(a) == 2 and a[0] == ("arg", 1) and a[1] == ("const", "xmlns:"):
+            return ("starts-with-xmlns:", True)
+        if nm.endswith("Option::is_some") and len(a) == 1 and a[0][0] == "call" and a[0][1] == "core::str::strip_prefix" and \
+                strip(a[0][2][0], V) == ("arg", 1) and strip(a[0][2][1]) == ("const", "xmlns:"):
+            return ("starts-with-xmlns:", True)
+        if nm in ("std::cmp::PartialEq::eq", "std::cmp::PartialEq::ne") and len(a) == 2:
+            lit = [x for x in a if x[0] == "const" and isinstance(x[1], str)]
+            oth = [x for x in a if not (x[0] == "const" and isinstance(x[1], str))]
+            if len(lit) == 1 and len(oth) == 1:
+                L, o = lit[0][1], oth[0]
+                k = None
+                if o[0] == "call" and o[1] == "std::ops::Index::index" and strip(o[2][0], V) == ("arg", 1):
+                    rg = strip(o[2][1])
+                    if rg[0] == "agg" and rg[1] == "std::ops::RangeTo":
+                        end = strip(rg[3]["end"])
+                        if end[0] == "binop" and end[1] == "Add" and payload(end[2], "find") == ["Some", "0"] and strip(end[3])[0] == "const":
+                            k = strip(end[3])[1]
+                        elif payload(end, "find") == ["Some", "0"]:
+                            k = 0
+                elif payload(o, "split") == ["Some", "0", 0]:
+                    k = 0
+                if (L, k) in (("xmlns:", 1), ("xmlns", 0)):
+                    return ("prefix-is-xmlns", nm.endswith("::eq"))
+        return None
+    for cs, cb in preds:
+        pb = normal_form(lib, cb)
+        ok, why = is_conjunction_of(pb, atom_of, ("has-colon", "prefix-is-xmlns"))
+        if not ok:
+            ok2, why2 = is_conjunction_of(pb, atom_of, ("starts-with-xmlns:",))
+            ok, why = (ok2, why2) if ok2 else (ok, why)
+        r.ob("R10.6.namespace-declaration-predicate", cb.name, ok, "an attribute name is kept unshortened exactly when it starts with \"xmlns:\"" if ok else
+             "the predicate deciding whether an attribute keeps its prefix is not `text starts with \"xmlns:\"` in a recognised form (%s)" % why, site=cs, key="R10.6|xmlns")
 
 
 def constructor_rules(r, lib):
